@@ -523,3 +523,12 @@ def contains_expr(root, src):
             except Exception:
                 continue
     return False
+
+
+def summarize_block(stmts_, skip=lambda st: False):
+    """final bindings of a statement list treated as straight-line code (e.g. one loop iteration); `skip` drops statements"""
+    body = [copy.deepcopy(st) for st in stmts_ if not skip(st)] or [ast.Pass()]
+    fn = ast.FunctionDef(name="_block", args=ast.arguments(posonlyargs=[], args=[], kwonlyargs=[], kw_defaults=[], defaults=[]),
+                         body=body, decorator_list=[], returns=None, type_comment=None)
+    ast.fix_missing_locations(fn)
+    return summarize(fn)
